@@ -174,7 +174,7 @@ func probeCmd(args []string) error {
 		out["side_outputs_exceed_inputs_with_marked_flag"] = r
 	}
 	_ = fx.BCName
-	b, _ := json.MarshalIndent(out, "", " ")
+	b, _ := json.Marshal(out)
 	fmt.Println(string(b))
 	return nil
 }
